@@ -124,7 +124,16 @@ func (cfg *Config) applyDenylist() {
 }
 
 func (cfg *Config) applyOverrides() error {
-	for name, value := range cfg.overrides {
+	// Apply the overrides in sorted order: an override of a module is then
+	// applied before the overrides of its attributes, and the error reported
+	// for more than one invalid override does not depend on map iteration order
+	names := make([]string, 0, len(cfg.overrides))
+	for name := range cfg.overrides {
+		names = append(names, name)
+	}
+	sort.Strings(names)
+	for _, name := range names {
+		value := cfg.overrides[name]
 		parts := strings.Split(name, ".")
 		if len(parts) == 1 {
 			cfg.globals[name] = value
